@@ -291,6 +291,10 @@ def job_b(case):
 
 
 def run(tier, seed, rep):
+    # histories of several requests on one object under the full fault alphabet (mc/sessions.py)
+    from .. import sessions
+    _ses = sessions.explore_sessions(tier, seed, {'C05'}, light=False)
+    rep.add_many([v for v in _ses.violations if v['prop'] == 'C05'])
     grid = [(1, 0), (1, 1), (1, 2), (1, 3), (2, 1), (0.5, 2)] if tier == 'thorough' else [(1, 1), (1, 2), (2, 1)]
     depth = 8 if tier == 'thorough' else 4
     jobs = [(dict(transport=tr, ka=ka, T=T, R=R), depth)
@@ -315,7 +319,8 @@ def run(tier, seed, rep):
         for clause, cause in vio:
             cell = case['entry'] + ('/tcp' if case['port'] == 502 else '/udp') + '/' + case['mode']
             rep.add(f'{clause}/{cell}', clause, dict(part='B', case=case), dict(cause=cause, **info))
-    cov = dict(states=len(total.states), transitions=len(total.edges), executions=total.executions + nb,
+    cov = dict(session_histories=_ses.executions, session_states=len(_ses.states), session_choice_points=_ses.choice_points,
+               states=len(total.states), transitions=len(total.edges), executions=total.executions + nb,
                traces_validated_against_impl=total.executions + nb,
                histories=total.executions, entry_point_cases=nb, entry_outcomes=eoc,
                distinct_outcome_classes=len(total.outcomes), exhaustive=True,
@@ -329,6 +334,11 @@ def run(tier, seed, rep):
 
 
 def replay(r):
+    if r.get('part') == 'session':
+        from .. import sessions
+        out = sessions.replay(r)
+        out['violations'] = [m for m in out['violations'] if m[0] == 'C05']
+        return out
     if r['part'] == 'A':
         _, _, obs = run_history(r['cfg'], r['history'])
         return dict(history=r['history'], probe_tx=[t for t, _, _ in obs.txs], probe_done=obs.t1,
